@@ -10,7 +10,20 @@ package objectdeployments
 //@   ensures forall i int :: 0 <= i && i < len(prevObjectSets) ==> ownerRev(prevObjectSets[i]) <= result
 //@   ensures len(prevObjectSets) == 0 ==> result == 0
 
+// the ObjectSet built for a new revision carries the deployment's template spec, names every existing ObjectSet as
+// previous revision, is called <deployment>-<template hash> in the deployment's namespace and is controlled by it
+//@ func package-operator.run/internal/controllers/objectdeployments.(*newRevisionReconciler).newObjectSetFromDeployment
+//@   ensures [C07] result1 == nil ==> tplVal(clientObj(result0)) == old(depTplSpec(clientObj(objectDeployment)))
+//@   ensures [C07] result1 == nil ==> prevRevs(clientObj(result0)) == prevObjectSets
+//@   ensures [C07] result1 == nil ==> ns(clientObj(result0)) == old(ns(clientObj(objectDeployment)))
+//@   ensures depTplSpec() == old(depTplSpec()) && depPhases() == old(depPhases()) && (forall i int :: 0 <= i && i < len(prevObjectSets) ==> ownerRev(prevObjectSets[i]) == old(ownerRev(prevObjectSets[i])))
+//@   ensures gomem_unchanged(maps)
+//@   ensures result1 == nil ==> fresh(result0)
+
 //@ func package-operator.run/internal/controllers/objectdeployments.(*newRevisionReconciler).Reconcile
+//@   requires [C07] true
+//@   sink Client.Create#1 requires [C07] depPhases(clientObj(objectDeployment)) != 0
+//@   sink Client.Create#1 requires [C07] tplVal(arg1) == depTplSpec(clientObj(objectDeployment)) && prevRevs(arg1) == prevObjectSets
 //@   requires forall i int, j int :: 0 <= i && i <= j && j < len(prevObjectSets) ==> ownerRev(prevObjectSets[i]) <= ownerRev(prevObjectSets[j])
 //@   sink Client.Create#1 requires [C07] currentObject == nil
 //@   at return#7 assert [C07] lastDeepEq() && !archivedOS(conflictingObjectSet) && (forall i int :: 0 <= i && i < len(prevObjectSets) ==> ownerRev(prevObjectSets[i]) <= ownerRev(conflictingObjectSet))
